@@ -142,7 +142,7 @@ func (p Pegnet) CheckHardForks(tx QueryAble) error {
 		// -1s for all hardfork heights we synced prior to the version tracking.
 		for _, event := range Hardforks {
 			// If we are past the hardfork, put in a -1
-			if bs.Synced > event.ActivationHeight {
+			if bs.Synced >= event.ActivationHeight {
 				_ = p.markHeightSyncedVersion(tx, event.ActivationHeight, -1)
 			}
 		}
